@@ -109,14 +109,35 @@ func parsePayload(b []byte) (pub, qos, n int, ok bool) {
 	return pub, qos, n, e1 == nil && e2 == nil && e3 == nil
 }
 
-// publish n numbered messages at each QoS and wait for the broker's acknowledgements
+func ackCount(p *peer) int {
+	p.mu.Lock()
+	defer p.mu.Unlock()
+	acks := 0
+	for _, g := range p.all {
+		switch g.(type) {
+		case *packet.Puback, *packet.Pubcomp:
+			acks++
+		}
+	}
+	return acks
+}
+
+// publish n numbered messages at each QoS, never more than 5 QoS>0 publishes unacknowledged (a
+// publisher that pipelines more QoS 2 publishes than the broker's ParallelPublishes blocks its own
+// connection until the token timeout: the processor waits for a token and never reads the PUBRELs)
 func publishStream(p *peer, pub int, topic string, count int, nextID *int) {
+	sent := 0
 	for i := 0; i < count; i++ {
 		for q := 0; q <= 2; q++ {
 			m := &packet.Publish{Message: packet.Message{Topic: topic, Payload: payload(pub, q, i), QOS: packet.QOS(q)}}
 			if q > 0 {
 				*nextID++
 				m.ID = packet.ID(*nextID)
+				deadline := time.Now().Add(3 * time.Second)
+				for sent-ackCount(p) >= 5 && time.Now().Before(deadline) {
+					time.Sleep(200 * time.Microsecond)
+				}
+				sent++
 			}
 			if p.send(m) != nil {
 				return
@@ -155,7 +176,10 @@ func checkOrder(pubs []*packet.Publish) (bool, string) {
 
 func runC15(c *hx.Ctx) {
 	o := &out{c: c}
-	type cfg struct{ pubs, subs, window, count int; cut bool }
+	type cfg struct {
+		pubs, subs, window, count int
+		cut                       bool
+	}
 	var cfgs []cfg
 	for _, w := range []int{1, 2, 3, 10} {
 		cfgs = append(cfgs, cfg{1, 1, w, 20, false}, cfg{3, 2, w, 12, false}, cfg{2, 2, w, 12, true})
@@ -205,20 +229,8 @@ func runC15(c *hx.Ctx) {
 				publishStream(pp, i, topic, cf.count, &id)
 				// wait until every QoS>0 publish is acknowledged
 				deadline := time.Now().Add(5 * time.Second)
-				for time.Now().Before(deadline) {
-					pp.mu.Lock()
-					acks := 0
-					for _, g := range pp.all {
-						switch g.(type) {
-						case *packet.Puback, *packet.Pubcomp:
-							acks++
-						}
-					}
-					pp.mu.Unlock()
-					if acks >= 2*cf.count {
-						break
-					}
-					time.Sleep(2 * time.Millisecond)
+				for ackCount(pp) < 2*cf.count && time.Now().Before(deadline) {
+					time.Sleep(time.Millisecond)
 				}
 				pp.send(&packet.Disconnect{})
 			}(i)
@@ -552,11 +564,11 @@ func hostiles(c *hx.Ctx) []hostile {
 	})
 	add("empty-and-odd-topics", func(port string, c *hx.Ctx) {
 		// raw encodings the library itself refuses to produce
-		rawSend(port, connectBytes("h3"), []byte{0x30, 0x02, 0x00, 0x00})                                     // publish, empty topic
-		rawSend(port, connectBytes("h3"), []byte{0x32, 0x05, 0x00, 0x01, 'a', 0x00, 0x00})                    // qos1 id 0
-		rawSend(port, connectBytes("h3"), []byte{0x36, 0x05, 0x00, 0x01, 'a', 0x00, 0x01})                    // qos 3
-		rawSend(port, connectBytes("h3"), []byte{0x82, 0x05, 0x00, 0x01, 0x00, 0x00, 0x01})                   // subscribe empty filter
-		rawSend(port, connectBytes("h3"), []byte{0x82, 0x06, 0x00, 0x01, 0x00, 0x01, 0x00, 0x01})             // filter with NUL
+		rawSend(port, connectBytes("h3"), []byte{0x30, 0x02, 0x00, 0x00})                         // publish, empty topic
+		rawSend(port, connectBytes("h3"), []byte{0x32, 0x05, 0x00, 0x01, 'a', 0x00, 0x00})        // qos1 id 0
+		rawSend(port, connectBytes("h3"), []byte{0x36, 0x05, 0x00, 0x01, 'a', 0x00, 0x01})        // qos 3
+		rawSend(port, connectBytes("h3"), []byte{0x82, 0x05, 0x00, 0x01, 0x00, 0x00, 0x01})       // subscribe empty filter
+		rawSend(port, connectBytes("h3"), []byte{0x82, 0x06, 0x00, 0x01, 0x00, 0x01, 0x00, 0x01}) // filter with NUL
 		rawSend(port, connectBytes("h3"), enc(&packet.Publish{Message: packet.Message{Topic: "a/+/#", Payload: []byte("w")}}))
 		rawSend(port, connectBytes("h3"), enc(&packet.Publish{Message: packet.Message{Topic: "all", Payload: []byte("hostile")}}))
 		rawSend(port, connectBytes("h3"), enc(&packet.Publish{Message: packet.Message{Topic: "a\x00b", Payload: []byte("w")}}))
@@ -632,6 +644,13 @@ func runC14(c *hx.Ctx) {
 			// witnesses exchange numbered traffic while the hostile peer acts
 			sub, _ := dialPeer("wsub", s.port, true)
 			pub, _ := dialPeer("wpub", s.port, true)
+			// a second witness subscribes to everything: whatever a hostile client manages to publish is forwarded to it
+			wall, _ := dialPeer("wall", s.port, true)
+			if wall == nil || wall.connect("wall", true, nil) == nil || !wall.subscribe(1, "#", 1) {
+				o.direct("witness", n, false, "the catch-all witness could not connect")
+				s.stop()
+				continue
+			}
 			if sub.connect("wsub", true, nil) == nil || pub.connect("wpub", true, nil) == nil || !sub.subscribe(1, "all", 1) {
 				o.direct("witness", n, false, "witnesses could not connect")
 				s.stop()
@@ -661,8 +680,8 @@ func runC14(c *hx.Ctx) {
 			wg.Wait()
 			sub.idle(30*time.Millisecond, 3*time.Second)
 			// the witnesses are still connected and every numbered message arrived, in order
-			alive := !sub.isClosed(10*time.Millisecond) && !pub.isClosed(10*time.Millisecond)
-			o.direct("witness_connected", n, alive, "both witness connections are still open")
+			alive := !sub.isClosed(10*time.Millisecond) && !pub.isClosed(10*time.Millisecond) && !wall.isClosed(10*time.Millisecond)
+			o.direct("witness_connected", n, alive, "all three witness connections are still open")
 			got := map[int]bool{}
 			for _, p := range sub.received() {
 				if pb, _, i, ok := parsePayload(p.Message.Payload); ok && pb == 1 {
@@ -684,6 +703,7 @@ func runC14(c *hx.Ctx) {
 			o.direct("witness_order", n, ok, d)
 			sub.close()
 			pub.close()
+			wall.close()
 			time.Sleep(20 * time.Millisecond)
 			bad := s.backend.lifecycle(3 * time.Second)
 			o.direct("lifecycle", n, len(bad) == 0, joinLines(bad))
